@@ -9,7 +9,7 @@ for item in "$@"; do
   git -C /repo worktree add -q --detach $wt HEAD
   if ! git -C $wt apply /verif/seeded/harmless/$h.diff; then echo "$h DOES NOT APPLY"; git -C /repo worktree remove --force $wt; continue; fi
   for p in $pids; do
-    JUMANJI_REPO=$wt JAX_PLATFORMS=cpu timeout 3000 /venv/bin/python harness/check.py $p --tier quick > /root/hl_out.txt 2>/dev/null; rc=$?
+    VERIF_EVIDENCE_DIR=/tmp/seed_evidence JUMANJI_REPO=$wt JAX_PLATFORMS=cpu timeout 3000 /venv/bin/python harness/check.py $p --tier quick > /root/hl_out.txt 2>/dev/null; rc=$?
     echo "$h $p rc=$rc :: $(grep -E "^(VIOLATION|\[C|HARNESS|TIMEOUT)" /root/hl_out.txt | cut -c1-260)"
   done
   git -C /repo worktree remove --force $wt
